@@ -45,6 +45,7 @@ def check(sc, ctx):
         ctx.excluded += 1
         return
     f = sc["f"]
+    routing.side_labels(sc, ev, ctx)
     ctx.label("mode:" + str(f.get("pair_filter")))
     ctx.label("adapters:" + ("both" if sc["ad1"] and sc["ad2"] else "r1" if sc["ad1"] else "r2" if sc["ad2"] else "none"))
     if sc["out"].get("interleaved_out"):
